@@ -130,13 +130,14 @@ C03R(c, o) ==
 
 (* C13 on the recorded pipeline layout descriptor, plus wgpu's own acceptance of it *)
 C13R(c, o) ==
-  IF ~(HasS(c) /\ ValidAll(o) /\ RetOk(o) /\ Compiled(o) /\ Len(c.S.entries) > 0) THEN NoVerdict ELSE
+  IF ~(HasS(c) /\ ValidAll(o) /\ RetOk(o) /\ Compiled(o)) THEN NoVerdict ELSE
   LET S == c.S
       has == PushGlobals(S) # << >>
       evs == RtOf(o, "pipeline_layout")
       pl == SelectSeq(evs, LAMBDA e : e.ev = "rt.create_pipeline_layout")
       ps == SelectSeq(evs, LAMBDA e : e.ev = "rt.push_stages")
-      real == { e \in Range(RtOf(o, "wgpu")) : Has(e, "err") /\ e.call = "create_pipeline_layout" /\ ~Has(e, "device") }
+      real == IF PushGlobals(S) # << >> /\ PushExpected(S) = {} THEN {}   \* a module without entry points: wgpu has nothing to attach the range to
+              ELSE { e \in Range(RtOf(o, "wgpu")) : Has(e, "err") /\ e.call = "create_pipeline_layout" /\ ~Has(e, "device") }
   IN [ dom |-> evs # << >> \/ RtOf(o, "wgpu") # << >>, fails |->
        (IF evs = << >> THEN {} ELSE
          Chk(Len(pl) = 1, "create_pipeline_layout recorded " \o Str(Len(pl)) \o " pipeline layouts")
@@ -181,7 +182,7 @@ C20(c, o) ==
 
 (* ------------------------------------------------------------------ C13 (static part) *)
 C13(c, o) ==
-  IF ~(HasS(c) /\ ValidAll(o) /\ Projected(o) /\ Len(c.S.entries) > 0) THEN NoVerdict ELSE
+  IF ~(HasS(c) /\ ValidAll(o) /\ Projected(o)) THEN NoVerdict ELSE
   LET S == c.S
       has == PushGlobals(S) # << >>
       pl == o.out.pipeline_layout
